@@ -32,7 +32,7 @@ Definition cost_family (n : nat) : doc :=
      d_order := map (fun s => (N.of_nat s, O)) (seq 0 (S (S n)));
      d_frags := map (cf_frag n) (seq 0 (S n));
      d_ops := [{| op_root := 0%N; op_nodes := 4; op_hdr := 1 |}];
-     d_nodes := 7 * Z.of_nat n + 9 |}.
+     d_nodes := 7 * Z.of_nat n + 10 |}.
 
 Section Family.
   Variable n : nat.
